@@ -26,6 +26,9 @@ type cfSchemaCase struct {
 	Entry  string `json:"entry"`
 	Draft  string `json:"draft,omitempty"`
 	Values int    `json:"values"`
+	// Deep selects the larger set of canary file states (thorough tier); part
+	// of the case so that a replay uses the states of the run that found it.
+	Deep bool `json:"deep,omitempty"`
 }
 
 func (s cfSchemaCase) canon() string {
@@ -122,11 +125,16 @@ func cfCanaryContent(state string) (string, bool) {
 }
 
 // cfSetCanary puts every file a reference could plausibly resolve to (the
-// absolute canary, the same name in the working directory and in its parent)
-// into the given state.
+// absolute canary, the same name in its parent directory, in the working
+// directory and in the parent of that) into the given state. Not covered: a
+// reference that resolves to /canary.json in the root directory of the host
+// (forms "relative" and "parent-relative" outside the id-rebased position do:
+// the document's own URL is file:///values.schema.json) - the harness does not
+// write there; such attempts are counted from the error text instead and the
+// dependence is demonstrated by the "root-relative" form.
 func cfSetCanary(w *cfWorld, state string) {
 	content, present := cfCanaryContent(state)
-	for _, p := range []string{w.canaryJS, filepath.Join(w.cwd[0], "canary.json"), filepath.Join(filepath.Dir(w.cwd[0]), "canary.json")} {
+	for _, p := range []string{w.canaryJS, filepath.Join(w.root, "canary.json"), filepath.Join(w.cwd[0], "canary.json"), filepath.Join(filepath.Dir(w.cwd[0]), "canary.json")} {
 		if present {
 			os.WriteFile(p, []byte(content), 0o644)
 		} else {
@@ -183,7 +191,7 @@ func cfValidate(entry string, schema []byte, vals map[string]any) (res cfSchemaR
 func cfJudgeSchema(c *core.Ctx, w *cfWorld, s cfSchemaCase) string {
 	w.apply(cfHostA)
 	states := cfCanaryStatesQuick
-	if c.Thorough() {
+	if s.Deep {
 		states = cfCanaryStatesThorough
 	}
 	doc := cfSchemaDoc(w, s)
@@ -196,6 +204,9 @@ func cfJudgeSchema(c *core.Ctx, w *cfWorld, s cfSchemaCase) string {
 		res[i] = cfValidate(s.Entry, doc, cfSchemaValues[s.Values])
 	}
 	cfSetCanary(w, "absent")
+	if strings.Contains(res[0].Msg, "open /canary.json:") {
+		c.Count("confine_schema_open_attempts_on_uncontrolled_host_path", 1)
+	}
 	if n := w.httpReqs.Load() - h0; n > 0 {
 		cfViolate(c, "schema-ref/http-fetch", fmt.Sprintf("validating against schema %s (%s) attempted %d HTTP request(s)", cfShow(w, string(doc)), s.Entry, n), cs)
 	}
@@ -244,7 +255,7 @@ func cfRunSchema(c *core.Ctx, w *cfWorld) {
 						if !c.NextMine() {
 							continue
 						}
-						s := cfSchemaCase{Form: form, Pos: pos, Entry: entry, Draft: draft, Values: vi}
+						s := cfSchemaCase{Form: form, Pos: pos, Entry: entry, Draft: draft, Values: vi, Deep: c.Thorough()}
 						c.Eval(1)
 						c.Distinct(s.canon())
 						out := cfJudgeSchema(c, w, s)
@@ -261,6 +272,12 @@ func cfRunSchema(c *core.Ctx, w *cfWorld) {
 	c.Bound("confine.schema.cases", strconv.Itoa(n))
 	c.Bound("confine.schema.forms", strings.Join(forms, ","))
 	c.Bound("confine.schema.positions", strings.Join(cfSchemaPositions, ","))
+	if c.Thorough() {
+		c.Bound("confine.schema.canary_states", strings.Join(cfCanaryStatesThorough, ","))
+	} else {
+		c.Bound("confine.schema.canary_states", strings.Join(cfCanaryStatesQuick, ","))
+	}
+	c.Bound("confine.schema.entry_points", strings.Join(cfSchemaEntries, ","))
 }
 
 // cfSchemaControls: on schemas without any reference the entry points must
